@@ -25,7 +25,12 @@ RULE = (
     "- as a second object of the class writes it - left there identical, with CRLF / CR / mixed line ends, with a "
     "stale tail, cut short, empty, in another encoding, behind a BOM, with blanks before the line ends, without its "
     "last line end, with the letter case swapped, binary: one byte changed): the bytes on disk after write(path) "
-    "never depend on it. The named Boolean "
+    "never depend on it. The file class under test is, in half of the cases, DERIVED from another file class of the "
+    "same family that declares the same tables and storage but another ENCODING (derive: the derived class re-declares "
+    "only ENCODING), and before the derived class's first use a relative is used in the same process (warm: the parent "
+    "reads the content / is instantiated empty / writes to a buffer, the bare framework base class is instantiated, a "
+    "sibling derived with a third encoding reads, or nothing): every check is made on the derived class with ITS OWN "
+    "declared encoding, exactly as for a directly declared class. The named Boolean "
     "checks are evaluated by the driver. non-trivial = the content has a non-ASCII character or binary storage; "
     "distinct by full case."
 )
@@ -40,24 +45,63 @@ EXHAUSTIVE = {"quick": False, "thorough": False}
 ENCODINGS = ["utf-8", "latin-1", "cp1252", "utf-16"]
 
 
-def mk_file_class(case):
-    fam, binary, enc = case["family"], case["binary"], case["encoding"]
+def _declare(base, attrs, case):
+    """the file class under test: declared directly on the framework base, or (case['derive']) derived from a
+    parent file class that carries the tables / storage and ANOTHER declared encoding; the derived class re-declares
+    ENCODING only. Returns (class under test, parent or None, sibling or None)."""
+    dv = case.get("derive")
+    if not dv:
+        return type(attrs.pop("_name"), (base,), dict(attrs, ENCODING=case["encoding"], __slots__=[])), None, None
+    name = attrs.pop("_name")
+    parent = type(name + "Legacy", (base,), dict(attrs, ENCODING=dv["parent_encoding"], __slots__=[]))
+    sibling = None
+    if dv.get("warm") == "sibling_read":
+        sibling = type(name + "Other", (parent,), {"ENCODING": dv.get("sibling_encoding", "utf-8"), "__slots__": []})
+    return type(name, (parent,), {"ENCODING": case["encoding"], "__slots__": []}), parent, sibling
+
+
+def mk_file_class(case, relatives=False):
+    fam, binary = case["family"], case["binary"]
     st = "BINARY" if binary else "TEXT"
     if fam == "register":
         regs = case["regs"]
         classes = fsup.mk_register_classes(regs)
-        from cfinterface.files.registerfile import RegisterFile
+        from cfinterface.files.registerfile import RegisterFile as base
 
-        return type("RF", (RegisterFile,), {"REGISTERS": classes, "STORAGE": st, "ENCODING": enc, "__slots__": []}), classes
-    if fam == "block":
+        attrs = {"_name": "RF", "REGISTERS": classes, "STORAGE": st}
+    elif fam == "block":
         classes = fsup.mk_block_classes(case["blocks"], binary)
-        from cfinterface.files.blockfile import BlockFile
+        from cfinterface.files.blockfile import BlockFile as base
 
-        return type("BF", (BlockFile,), {"BLOCKS": classes, "STORAGE": st, "ENCODING": enc, "__slots__": []}), classes
-    classes = fsup.mk_section_classes(case["secs"])
-    from cfinterface.files.sectionfile import SectionFile
+        attrs = {"_name": "BF", "BLOCKS": classes, "STORAGE": st}
+    else:
+        classes = fsup.mk_section_classes(case["secs"])
+        from cfinterface.files.sectionfile import SectionFile as base
 
-    return type("SF", (SectionFile,), {"SECTIONS": classes, "STORAGE": st, "ENCODING": enc, "__slots__": []}), classes
+        attrs = {"_name": "SF", "SECTIONS": classes, "STORAGE": st}
+    F, parent, sibling = _declare(base, attrs, case)
+    if relatives:
+        return F, classes, {"base": base, "parent": parent, "sibling": sibling}
+    return F, classes
+
+
+def warm_up(case, rel, content, extra, kw):
+    """a relative of the class under test is used first, in the same process (in-memory I/O only: nothing of it
+    is observed, and the property says nothing of it stays behind for the derived class)"""
+    dv = case.get("derive")
+    if not dv:
+        return
+    warm, binary = dv.get("warm"), case["binary"]
+    if warm == "parent_read":
+        rel["parent"].read(content, *extra, **kw)
+    elif warm == "parent_new":
+        rel["parent"]()
+    elif warm == "parent_write":
+        rel["parent"].read(content, *extra, **kw).write(BytesIO() if binary else StringIO())
+    elif warm == "base_new":
+        rel["base"]()
+    elif warm == "sibling_read":
+        rel["sibling"].read(content, *extra, **kw)
 
 
 def elems_of(case, f, classes):
@@ -123,7 +167,7 @@ def run_impl(case):
             for i in range(6):
                 d = os.path.join(d, f"estudo_{i:02d}_caso_base_revisao_semanal_deck_de_entrada")
             os.makedirs(d)
-        F, classes = mk_file_class(case)
+        F, classes, rel = mk_file_class(case, relatives=True)
         enc, binary = case["encoding"], case["binary"]
         content = bytes(case["x"]) if binary else codec.dec_str(case["x"])
         raw = content if binary else content.encode(enc)
@@ -138,6 +182,7 @@ def run_impl(case):
                 kw = {"linesize": case["linesize"]}
             else:
                 extra = (case["linesize"],)
+        warm_up(case, rel, content, extra, kw)
         f_path = F.read(src, *extra, **kw)
         f_mem = F.read(content, *extra, **kw)
         checks = {}
@@ -207,12 +252,14 @@ def judge(case, obs, resp):
         return {"status": "error", "why": resp["error"]}
     if "harness_exc" in obs:
         return {"status": "error", "why": f"harness: {obs['harness_exc']} {obs.get('msg')}"}
+    dv = case.get("derive")
+    how = f" (file class derived from a parent declaring {dv['parent_encoding']}, used first: {dv.get('warm')})" if dv else ""
     if "exc" in obs:
-        return {"status": "oracle", "why": f"path/in-memory I/O raised {obs['exc']}: {obs.get('msg')}"}
+        return {"status": "oracle", "why": f"{case['family']} {'binary' if case['binary'] else 'text'} {case['encoding']}{how}: path/in-memory I/O raised {obs['exc']}: {obs.get('msg')}"}
     if not resp["holds"]:
         prior = case.get("dst_prior") or ("longer" if case.get("dst_exists") else None)
         held = f", destination path held before the write: {prior}" if prior else ""
-        return {"status": "oracle", "why": f"{case['family']} {'binary' if case['binary'] else 'text'} {case['encoding']}{held}: {resp.get('failed')} false"}
+        return {"status": "oracle", "why": f"{case['family']} {'binary' if case['binary'] else 'text'} {case['encoding']}{how}{held}: {resp.get('failed')} false"}
     return {"status": "ok", "why": ""}
 
 
@@ -221,7 +268,7 @@ def nontrivial(case):
 
 
 def features(case, obs):
-    return [f"family={case['family']}", "binary" if case["binary"] else "text", f"encoding={case['encoding']}", "non_ascii" if any(c > 127 for c in case["x"]) else "ascii", f"dst_prior={case.get('dst_prior') or ('longer' if case.get('dst_exists') else 'none')}"]
+    return [f"family={case['family']}", "binary" if case["binary"] else "text", f"encoding={case['encoding']}", "non_ascii" if any(c > 127 for c in case["x"]) else "ascii", f"dst_prior={case.get('dst_prior') or ('longer' if case.get('dst_exists') else 'none')}", f"derive={(case.get('derive') or {}).get('warm', 'direct')}"]
 
 
 def signature(rec):
@@ -246,6 +293,9 @@ print(c16.run_impl(case))
 CHARS = {"utf-8": "éñßÇλ日本€✓\u0303\u0301\u0323\u0302\u212b\u2126", "utf-16": "éñßÇλ日本€✓\u0303\u0301\u0323\u0302\u212b\u2126", "latin-1": "éñßÇ¿", "cp1252": "éñßÇ€œ"}
 
 
+WARMS = ["parent_read", "parent_read", "parent_new", "parent_write", "base_new", "sibling_read", "none"]
+
+
 def random_case(rng):
     fam = rng.choice(["register", "block", "section"])
     binary = fam != "section" and rng.random() < 0.3
@@ -254,6 +304,14 @@ def random_case(rng):
     # the states of PRIORS_TEXT / PRIORS_BIN
     prior = rng.choice(PRIORS_BIN if binary else PRIORS_TEXT) if rng.random() < 0.75 else None
     case = {"family": fam, "binary": binary, "encoding": enc, "dst_prior": prior, "long_path": rng.random() < 0.2}
+    # half of the file classes are derived from a parent file class declaring another encoding (a legacy format and
+    # its newer flavour); a relative is used before the derived class
+    drng = random.Random(rng.getrandbits(32))
+    if drng.random() < 0.5:
+        others = [e for e in ENCODINGS if e != enc]
+        case["derive"] = {"parent_encoding": drng.choice(others), "warm": drng.choice(WARMS)}
+        if case["derive"]["warm"] == "sibling_read":
+            case["derive"]["sibling_encoding"] = drng.choice(others)
     if binary:
         if fam == "register":
             from props import c18
